@@ -1,5 +1,5 @@
-(* C03 — matrices: the MATRIX three-way joint iterator (value based Ok(), dense
-   operand iterators skip zero elements) on a sparse receiver, the loops built on
+(* C03 — matrices: the MATRIX three-way joint iterator (Ok() = the explicit flag of
+   HEAD: some iterator delivered an element; dense operand iterators skip zero elements) on a sparse receiver, the loops built on
    it (element-wise operations, Equals) and the step4-level lemmas of the
    operations that run through it.  Twin of ProofsJoint.v. *)
 From Coq Require Import ZArith List Bool Lia Sorted.
@@ -123,15 +123,14 @@ Proof.
     eexists. eexists. split; [reflexivity|]. split; [exact Q03|]. split; [exact G3|].
     right. unfold mj3_ok. cbn [midx ms1 ms2 ms3 m1 m2 m3].
     split.
-    { destruct d1.
-      - destruct (R2 eq_refl) as (l & X & L & N). rewrite X.
-        unfold isnull in N. rewrite L in N. rewrite (proj1 Q03), N. reflexivity.
+    { (* Ok() = the flag: some iterator delivered (HEAD, e83c5e9) — no look at the values *)
+      destruct d1.
+      - destruct (R2 eq_refl) as (l & X & L & N). rewrite X. reflexivity.
       - destruct d2.
-        + rewrite A2.
-          apply orb_true_iff. left. apply orb_true_iff. right.
-          apply negb_true_iff. apply Z.eqb_neq. apply (proj2 (A3 eq_refl)).
-        + destruct d3; [|discriminate]. rewrite B2.
-          apply orb_true_iff. right. apply negb_true_iff. apply Z.eqb_neq. apply (proj2 (B3 eq_refl)). }
+        + pose proof (proj1 (A3 eq_refl)) as NE. destruct s2; [|contradiction].
+          apply orb_true_iff. left. apply orb_true_iff. right. reflexivity.
+        + destruct d3; [|discriminate]. pose proof (proj1 (B3 eq_refl)) as NE. destruct s3; [|contradiction].
+          apply orb_true_iff. right. reflexivity. }
     split; [exact Hi|]. split; [intros x Hx; auto|]. split; [exact A2|]. split; [exact B2|].
     split.
     { intros l El. destruct d1.
